@@ -2,12 +2,15 @@
 
 package cose
 
+import "github.com/fxamacker/cbor/v2"
+
 func init() {
 	vRegister("H_C13_encode_single", H_C13_encode_single)
 	vRegister("H_C13_encode_pairs", H_C13_encode_pairs)
 	vRegister("H_C13_decode_single", H_C13_decode_single)
 	vRegister("H_C13_decode_pairs", H_C13_decode_pairs)
 	vRegister("H_C13_cross_bucket", H_C13_cross_bucket)
+	vRegister("H_C13_encode_carriers", H_C13_encode_carriers)
 }
 
 // ---- neutral description of a header entry and the RFC 9052 section 3.1 rules -------------------------
@@ -282,6 +285,49 @@ func H_C13_encode_single() {
 	} else {
 		vAssert("encode: a header violating RFC 9052 3.1 is refused", err != nil)
 	}
+	vReach("end")
+}
+
+type c13Bytes []byte
+
+// other Go carriers of a value (pre-encoded items, named byte-slice types, byte arrays):
+// whatever the encoder lets through obeys section 3.1 on the wire and is accepted back by the decoder
+func H_C13_encode_carriers() {
+	protected := vChoose("bucket", 2) == 0
+	l, sl := c13GoLabel("e0", 3)
+	var v any
+	var se specEntry
+	switch vChoose("carrier", 3) {
+	case 0:
+		wn, wse := c13WireValue("e0.raw", true)
+		v, se = cbor.RawMessage(vSer(wn)), wse
+	case 1:
+		v, se = c13Bytes(vBlob("e0.nb")), specEntry{kind: skBstr}
+	case 2:
+		v, se = [2]byte{vByte("e0.a0"), vByte("e0.a1")}, specEntry{kind: skBstr}
+	}
+	se.label = sl
+	var data []byte
+	var err error
+	if protected {
+		data, err = ProtectedHeader(map[any]any{l: v}).MarshalCBOR()
+	} else {
+		data, err = UnprotectedHeader(map[any]any{l: v}).MarshalCBOR()
+	}
+	if err != nil {
+		vReach("refused")
+		return
+	}
+	vAssert("encode: what is produced obeys RFC 9052 3.1", specHeaderOK([]specEntry{se}, protected))
+	var derr error
+	if protected {
+		var back ProtectedHeader
+		derr = back.UnmarshalCBOR(data)
+	} else {
+		var back UnprotectedHeader
+		derr = back.UnmarshalCBOR(data)
+	}
+	vAssert("encode: what is produced is accepted by the decoder", derr == nil)
 	vReach("end")
 }
 
